@@ -117,6 +117,41 @@ def run(chk, replay=None):
                 chk.violate('a run with the same key (reached through a symbolic link / from another directory) gives different ciphertexts', {'variant': i, 'out0': outs[0][:200].decode('utf-8', 'replace'), 'got': got[:200].decode('utf-8', 'replace')}, tags=['cli', 'keypath'])
         if outs[0] != outs[1] or not outs[0]:
             chk.violate('two CLI runs with one key file differ', {'out0': outs[0][:300].decode('utf-8', 'replace'), 'out1': outs[1][:300].decode('utf-8', 'replace')}, tags=['cli'])
+    # the other input channel of `redact --encrypt`: Atlas. First run creates the key file, the second one finds it: same ciphertexts,
+    # and they differ from the placeholder-mode output exactly at string leaves
+    from vlib import atlaslib, streamlib
+    import json as _json, base64 as _b64
+    asec = ['AtlasSecret Zq78qZ', 'second Zq79qZ', 'AtlasSecret Zq78qZ']
+    alines = [_json.dumps({'t': {'$date': '2020-01-01T00:00:00.000+00:00'}, 's': 'I', 'c': 'COMMAND', 'id': 1, 'ctx': 'c', 'msg': 'Slow query', 'attr': {'ns': 'd.c', 'command': {'find': 'c', 'filter': {'f': x, 'n': 5}}}}).encode() for x in asec]
+    hosts = ['h0.ex.net:27017', 'h1.ex.net:27017']
+    world = {'challenge': 'digest', 'cluster_st': 200, 'cluster_body': _json.dumps({'connectionStrings': {'standard': atlaslib.conn_string(hosts)}}),
+             'hosts': [{'status': 200, 'body': _b64.b64encode(streamlib.gz_bytes(b'\n'.join(alines) + b'\n')).decode(), 'cut': -1} for _ in hosts]}
+    r0 = atlaslib.run_cli(world, flags=[])
+    r1 = atlaslib.run_cli(world, flags=['--encrypt'])
+    keyb = r1['outs'].get('anonymongo.enc.key')
+    chk.count(); chk.traces += 1
+    if r1['rc'] != 0 or keyb is None or 'out.log.0' not in r1['outs'] or 'out.log.0' not in r0['outs']:
+        chk.violate('Atlas mode: redact --encrypt did not produce output files and a key file', {'rc': r1['rc'], 'files': sorted(r1['outs']), 'stderr': r1['stderr'].decode('utf-8', 'replace')[-200:]}, tags=['atlas'])
+    else:
+        r2 = atlaslib.run_cli(world, flags=['--encrypt'], pre_outs={'anonymongo.enc.key': keyb})
+        for name in ('out.log.0', 'out.log.1'):
+            a, b, pl = r1['outs'].get(name, b''), r2['outs'].get(name, b''), r0['outs'].get(name, b'')
+            chk.count(); chk.nontriv(('atlas-runs', name))
+            if a != b or not a:
+                chk.violate('Atlas mode: the run that creates the key file and the next run with that key file give different output', {'file': name, 'first': a[:300].decode('utf-8', 'replace'), 'second': b[:300].decode('utf-8', 'replace')}, tags=['atlas', 'cli', 'determinism'])
+            for la, lp, x in zip(a.split(b'\n'), pl.split(b'\n'), asec):
+                try: fa, fp = _json.loads(la)['attr']['command']['filter'], _json.loads(lp)['attr']['command']['filter']
+                except Exception: fa, fp = {}, {}
+                chk.count()
+                if fa.get('f') in (None, x, fp.get('f')) or fa.get('n') != fp.get('n'):
+                    chk.violate('Atlas mode with --encrypt: a sensitive string leaf is not a ciphertext (or a non-string leaf differs from placeholder mode)', {'file': name, 'encrypt_mode': la[:300].decode('utf-8', 'replace'), 'placeholder_mode': lp[:300].decode('utf-8', 'replace')}, tags=['atlas', 'cli', 'modes'])
+        l0 = r1['outs']['out.log.0'].split(b'\n')
+        try:
+            if _json.loads(l0[0])['attr']['command']['filter']['f'] != _json.loads(l0[2])['attr']['command']['filter']['f'] or _json.loads(l0[0])['attr']['command']['filter']['f'] == _json.loads(l0[1])['attr']['command']['filter']['f']:
+                chk.violate('Atlas mode with --encrypt: equal plaintexts / different plaintexts not reflected in the ciphertexts', {'lines': [x[:200].decode('utf-8', 'replace') for x in l0[:3]]}, tags=['atlas', 'cli', 'determinism'])
+        except Exception:
+            pass
+    chk.streams.append({'stream': 'Atlas input with --encrypt: key-creating run vs next run vs placeholder run', 'hosts': 2, 'lines': len(alines)})
     chk.sample({'flags': flagsets[1], 'input': lines[31].decode('utf-8', 'replace')[:500]})
     chk.assumptions += ["AES-SIV (Tink) is abstract in the model: the theorem holds for every encryption function; injectivity is derived from decryptability",
                         "ciphertexts for the model side are computed with the repository's Encrypt through the harness"]
